@@ -23,6 +23,7 @@ Definition r_freq_hi r := let '(_, _, _, a, _, _, _, _) := r_consts r in a.
 Definition r_max_eirp r := let '(_, _, _, _, a, _, _, _) := r_consts r in a.
 Definition r_pw_max r := let '(_, _, _, _, _, a, _, _) := r_consts r in a.
 Definition r_pw_cap r := let '(_, _, _, _, _, _, a, _) := r_consts r in a.
+Definition r_join_dr (r : rid) (wide : bool) : N := let '(a, b) := nth (N.to_nat r) join_dr_table (0, 0) in if wide then b else a.
 Definition r_num_join r := let '(_, _, _, _, _, _, _, a) := r_consts r in a.
 Definition r_join_freqs (r : rid) : list N := let '(_, _, j, _, _) := rtab r in j.
 Definition r_uplink (r : rid) : list N := let '(_, _, _, u, _) := rtab r in u.
@@ -223,6 +224,13 @@ Definition dyn_mask_validate (p : dyn_plan) (m : mask) : bool :=
   existsb (fun i => mask_bit m (N.of_nat i) && match nth i (dp_channels p) None with Some _ => true | None => false end)
           (seq 0 16).
 
+(* select_tx_channel (Data): when no defined channel is enabled the default (join) channels are re-enabled *)
+Definition dyn_fallback (r : rid) (p : dyn_plan) : dyn_plan :=
+  if dyn_mask_validate p (dp_mask p) then p else
+  {| dp_channels := dp_channels p;
+     dp_mask := fold_left (fun m i => match set_channel m (N.of_nat i) true with Val m' => m' | _ => m end)
+                          (seq 0 (N.to_nat (r_num_join r))) (dp_mask p) |}.
+
 (* channel_dl_update -> (freq ack, channel ack) *)
 Definition dyn_dl_update (r : rid) (p : dyn_plan) (index freq : N) : dyn_plan * (bool * bool) :=
   let fv := frequency_valid r freq in
@@ -389,11 +397,27 @@ Definition fix_mk_tx (r : rid) (dr chn : N) (p : fix_plan) (rest : list N) : out
   | Val None => Panic | Panic => Panic | OutOfDraws => OutOfDraws
   end.
 
+(* the default channels of the required kind are re-enabled when the mask has none of them *)
+Definition any_enabled (m : mask) (from n : nat) : bool := existsb (fun i => mask_bit m (N.of_nat i)) (seq from n).
+Definition fix_fallback_mask (m : mask) (wide : bool) : mask :=
+  if wide then (if any_enabled m 64 8 then m else set_nth m 8 0xFF)
+  else (if any_enabled m 0 64 then m else repeat 0xFF 8 ++ skipn 8 m).
+Definition fix_select_masked (r : rid) (p : fix_plan) (datarate : N) (draws : list N) : outcome (tx_channel * fix_plan * list N) :=
+  match datarate_index r datarate with
+  | Val (Some (_, bw, _)) =>
+    let m := fix_fallback_mask (fp_mask p) (bw =? 9) in
+    match (if bw =? 9 then fix_draw_enabled m 7 64 draws else fix_draw_enabled m 63 0 draws) with
+    | Val (chn, rest) => fix_mk_tx r datarate chn {| fp_mask := m; fp_jc := fp_jc p |} rest
+    | Panic => Panic | OutOfDraws => OutOfDraws
+    end
+  | Val None => Panic | Panic => Panic | OutOfDraws => OutOfDraws
+  end.
+
 Definition fix_select (r : rid) (p : fix_plan) (datarate : N) (join : bool) (draws : list N)
   : outcome (tx_channel * fix_plan * list N) :=
   let via_join :=
     match jc_get_next (fp_jc p) draws with
-    | Val (chn, j', rest) => fix_mk_tx r (if chn <? 64 then 0 else 4) chn {| fp_mask := fp_mask p; fp_jc := j' |} rest
+    | Val (chn, j', rest) => fix_mk_tx r (r_join_dr r (negb (chn <? 64))) chn {| fp_mask := fp_mask p; fp_jc := j' |} rest
     | Panic => Panic | OutOfDraws => OutOfDraws
     end in
   if join then via_join else
@@ -408,26 +432,17 @@ Definition fix_select (r : rid) (p : fix_plan) (datarate : N) (join : bool) (dra
         let j := jc_clear_bias (fp_jc p) in
         let pc := jc_previous j in
         let sb := if pc <? 64 then pc / 8 else pc mod 8 in
-        fix_mk_tx r datarate (N.land d 7 + sb * 8) {| fp_mask := fp_mask p; fp_jc := j |} rest
+        match datarate_index r datarate with
+        | Val (Some (_, bw, _)) =>
+          let c := N.land d 7 + sb * 8 in
+          fix_mk_tx r datarate (if bw =? 9 then 64 + c / 8 else c) {| fp_mask := fp_mask p; fp_jc := j |} rest
+        | Val None => Panic | Panic => Panic | OutOfDraws => OutOfDraws
+        end
       end
     else
-      match datarate_index r datarate with
-      | Val (Some (_, bw, _)) =>
-        match (if bw =? 9 then fix_draw_enabled (fp_mask p) 7 64 draws else fix_draw_enabled (fp_mask p) 63 0 draws) with
-        | Val (chn, rest) => fix_mk_tx r datarate chn p rest
-        | Panic => Panic | OutOfDraws => OutOfDraws
-        end
-      | Val None => Panic | Panic => Panic | OutOfDraws => OutOfDraws
-      end
+      fix_select_masked r p datarate draws
   | None =>
-    match datarate_index r datarate with
-    | Val (Some (_, bw, _)) =>
-      match (if bw =? 9 then fix_draw_enabled (fp_mask p) 7 64 draws else fix_draw_enabled (fp_mask p) 63 0 draws) with
-      | Val (chn, rest) => fix_mk_tx r datarate chn p rest
-      | Panic => Panic | OutOfDraws => OutOfDraws
-      end
-    | Val None => Panic | Panic => Panic | OutOfDraws => OutOfDraws
-    end
+    fix_select_masked r p datarate draws
   end.
 
 Definition fix_mask_set (p : fix_plan) (m : mask) : fix_plan := {| fp_mask := m; fp_jc := jc_reset (fp_jc p) |}.
@@ -474,13 +489,27 @@ Definition region_mask_update (g : region) (m : mask) (ctl lo hi : N) : outcome 
 Definition region_mask_validate (g : region) (m : mask) (dr : option N) : outcome bool :=
   match rg_plan g with PDyn p => Val (dyn_mask_validate p m) | PFix _ => fix_mask_validate (rg_id g) m dr end.
 
+(* uplink_datarate_valid: fixed plans reserve DR8.. for downlinks *)
+Definition uplink_dr (g : region) (d : N) : option (N * N * N) :=
+  match rg_plan g with
+  | PFix _ => if d <? 8 then get_datarate (rg_id g) d else None
+  | PDyn _ => get_datarate (rg_id g) d
+  end.
+
 Definition region_select (g : region) (datarate : N) (join : bool) (draws : list N) : outcome (tx_channel * region * list N) :=
   match rg_plan g with
   | PDyn p =>
-    match (if join then dyn_select_join (rg_id g) p datarate draws else dyn_select_data (rg_id g) p datarate draws) with
-    | Val (tc, rest) => Val (tc, g, rest)
-    | Panic => Panic | OutOfDraws => OutOfDraws
-    end
+    if join then
+      match dyn_select_join (rg_id g) p datarate draws with
+      | Val (tc, rest) => Val (tc, g, rest)
+      | Panic => Panic | OutOfDraws => OutOfDraws
+      end
+    else
+      let p1 := dyn_fallback (rg_id g) p in
+      match dyn_select_data (rg_id g) p1 datarate draws with
+      | Val (tc, rest) => Val (tc, {| rg_id := rg_id g; rg_plan := PDyn p1 |}, rest)
+      | Panic => Panic | OutOfDraws => OutOfDraws
+      end
   | PFix p =>
     match fix_select (rg_id g) p datarate join draws with
     | Val (tc, p', rest) => Val (tc, {| rg_id := rg_id g; rg_plan := PFix p' |}, rest)
@@ -498,5 +527,6 @@ Definition region_join_accept (g : region) (c : cfl) : outcome region :=
     | Panic => Panic | OutOfDraws => OutOfDraws
     end
   | PFix p, CflFix m => Val {| rg_id := rg_id g; rg_plan := PFix (fix_mask_set p m) |}
+  | PFix p, _ => Val {| rg_id := rg_id g; rg_plan := PFix {| fp_mask := mask_default; fp_jc := fp_jc p |} |}   (* no list: default mask *)
   | _, _ => Val g
   end.
